@@ -242,8 +242,16 @@ pub fn run(a: &Args) {
         let mut class = vec![];
         for i in 0..nops {
             if i == switch_at { ops.push(Op::Switch(rng.bytes(16))); class.push("s"); }
+            if rng.chance(1, 25) {
+                // a write that is abandoned while pending (nothing accepted), then OTHER bytes of the same length
+                let len = rng.range(1, 64) as usize;
+                ops.push(Op::Write(rng.bytes(len), vec![W::Pending])); class.push("w");
+                ops.push(Op::Write(rng.bytes(len), vec![W::Accept(len)])); class.push("w");
+                continue;
+            }
             if rng.chance(3, 5) {
-                let len = match rng.below(6) { 0 => 1, 1 => 2, 2 => 17, _ => rng.range(1, max_len) as usize };
+                // mostly short; now and then larger than any internal chunk size a stream wrapper might use (4 KiB, 8 KiB)
+                let len = match rng.below(40) { 0..=5 => 1, 6..=11 => 2, 12..=17 => 17, 18 => 4096, 19 => 4097, 20 => 5000, 21 => 8193, 22 => 10_000, _ => rng.range(1, max_len) as usize };
                 let plain = rng.bytes(len);
                 if rng.chance(1, 6) {
                     // vectored: 1–4 slices (some empty), one byte accepted per poll, a few Pendings
